@@ -24,7 +24,14 @@ def run_check(pid, tier="quick", root=None, quiet=False, write=True):
         mod = importlib.import_module(f"cnvlint.props.{pid}")
         prog = Program(root)
         chk = Check(pid, tier, prog, quiet=quiet)
-        mod.run(chk)
+        try:
+            mod.run(chk)
+        except AnalysisError as e:
+            # a later obligation could not be decided: definite violations found before it are still reported (exit 1);
+            # without any, the run is an analysis error (exit 2)
+            if not chk.violations:
+                raise
+            chk.note(f"analysis incomplete after the violation(s) above: {e}")
         if write:
             code = chk.finish(level_text=getattr(mod, "LEVEL_TEXT", ""))
         else:
